@@ -1411,8 +1411,60 @@ def ob_kelvin_voigt_operator(dim, nPe):
     return Verdict(DISCHARGED, backend=BACKEND, sub=2 * nd * nd + nd + 2)
 
 
+@_guard
+def ob_gonzalez_energy(dim, nPe, consistent):
+    """NonLinear.GonzalezStressTensor from the AST with arbitrary energies W_n, W_{n+1}, midpoint stress / tangent and strain increment dE at the generic (e, p):
+        R == t sum_p wJ B_mid^T S_hat,   S_hat = s_mid + alpha dE,   alpha = (dW - s_mid . dE) / (dE . dE)
+    and (exact rational identity) S_hat . dE == dW.  With the identity of the Green-Lagrange strain E(u_{n+1}) - E(u_n) == B(u_mid) du (C18.kin) this is
+    R . du == t sum_p wJ (W_{n+1} - W_n): the discrete gradient conserves ANY stored energy, for every element, every number of integration points, every step"""
+    ns = {2: 3, 3: 6}[dim]
+    nd = nPe * dim
+    sp = gen.Space(dict(wJ=(NE, NPG), dN=(NE, NPG, dim, nPe), Dm=(NE, NPG, ns, dim * dim), Dp=(NE, NPG, ns, dim * dim), En=(NE, NPG, ns), dE=(NE, NPG, ns),
+                        sm=(NE, NPG, ns), sp1=(NE, NPG, ns), Cm=(NE, NPG, ns, ns), Wn=(NE, NPG), Wp=(NE, NPG)), scalars=("t",))
+    g, r2 = _nl_env(sp)
+    gu, _, _ = env(sp, "EasyFEA.Models._utils")
+    gu["FeArray"], gu["np"] = g["FeArray"], g["np"]
+    pmv = extract.compile_fn(extract.get(MUP, "Project_matrix_to_vector"), gu)
+    g["Project_matrix_to_vector"] = lambda m, coef=None: pmv(m, r2 if coef is None else coef)
+    fns = module_fns(NLP, g, ["einsum", "__block_grad_B", "__geometric_tangent", "__reorder", "__reorder_dofs", "__second_piola_block", "GonzalezStressTensor"])
+    wJ, dN, Dm, En, dE = (sp.arr(k) for k in ("wJ", "dN", "Dm", "En", "dE"))
+    Btm, _ = _nl_pieces(sp, dim, nPe, r2, Dm, dN, En)
+    Ep = En + dE
+
+    def mat(v):
+        M = sp.full((NE, NPG, dim, dim), 0)
+        for d in range(dim):
+            M[:, :, d, d] = v[:, :, d]
+        for i, j, k in {2: [(0, 1, 2)], 3: [(1, 2, 3), (0, 2, 4), (0, 1, 5)]}[dim]:
+            M[:, :, i, j] = v[:, :, k] / r2
+            M[:, :, j, i] = v[:, :, k] / r2
+        return GFe._wrap(M)
+    grp = sx.Mock("groupElem", Ne=NE, dim=dim, nPe=nPe, Get_dN_e_pg=lambda mt: sp.fe("dN"), Get_weightedJacobian_e_pg=lambda mt: sp.fe("wJ"))
+    mk = lambda name, De, E: sx.Mock(name, groupElem=grp, matrixType="rigi", Compute_De=lambda: De, Compute_GreenLagrange=lambda: mat(E), _Slice_Vector=lambda v: v)
+    s_n, s_m, s_p = mk("state_n", None, En), mk("state_mid", sp.fe("Dm"), None), mk("state_np1", sp.fe("Dp"), Ep)
+    W = {id(s_n): sp.fe("Wn"), id(s_p): sp.fe("Wp")}
+    dW = {id(s_m): sp.fe("sm"), id(s_p): sp.fe("sp1")}
+    material = sx.Mock("material", thickness=sp.sym("t"), Compute_W=lambda st: W[id(st)], Compute_dWde=lambda st: dW[id(st)], Compute_d2Wde=lambda st: sp.fe("Cm"))
+    K, R = fns["GonzalezStressTensor"](material, s_n, s_m, s_p, consistent)
+    t = sp.sym("t") if dim == 2 else 1
+    sm, Wn, Wp = sp.arr("sm"), sp.arr("Wn"), sp.arr("Wp")
+    dEdE = gen.einsum("eps,eps->ep", dE, dE)
+    alpha = (Wp - Wn - gen.einsum("eps,eps->ep", sm, dE)) / dEdE
+    Shat = sm + gen.einsum("ep,eps->eps", alpha, dE)
+    check(R, gen.einsum("ep,eps,epsa->ea", wJ, Shat, Btm) * t, "residual of the discrete-gradient operator != t sum wJ B_mid^T (s_mid + alpha dE)", f"gonzalez:R:{dim}:{nPe}")
+    check(gen.einsum("eps,eps->ep", Shat, dE), Wp - Wn, "S_hat . dE != W_{n+1} - W_n", f"gonzalez:energy:{dim}")
+    if tuple(map(repr, K.shape)) != tuple(map(repr, (NE, nd, nd))):
+        raise Refuted(f"tangent of shape {K.shape}", signature="gonzalez:K:shape")
+    return Verdict(DISCHARGED, backend=BACKEND + "; dE.dE > eps0 decided at the witness (generic increment)", sub=nd + 1)
+
+
 def hyper_obligations(prop, tier):
     obs = []
+    for dim, nPe in ((2, 3), (2, 4)):      # (3-D: the rational arithmetic with a six-term denominator does not finish within the budget: left to the B obligations op.gonzalez.*)
+        for consistent in (True, False):
+            obs.append(Ob(f"{prop}.gp.gonzalez.{dim}d.n{nPe}.{'consistent' if consistent else 'midpoint'}", ob_gonzalez_energy, (dim, nPe, consistent), "P", (f_(NLP, "GonzalezStressTensor"), f_(MUP, "Project_matrix_to_vector")),
+                          clause="R == t sum_p wJ B_mid^T (s_mid + alpha dE) with (s_mid + alpha dE) . dE == W_{n+1} - W_n identically, for ANY energies, stresses, kinematic operators and strain increments; all Ne, nPg",
+                          timeout=400))
     for dim, nPe in ((2, 3), (3, 4)) + (((2, 4),) if tier == "thorough" else ()):
         obs.append(Ob(f"{prop}.gp.kelvinvoigt.{dim}d.n{nPe}", ob_kelvin_voigt_operator, (dim, nPe), "P", (f_(NLP, "KelvinVoigtDamping"),),
                       clause="C == t eta sum_p wJ B^T B, R == t eta sum_p wJ B^T Edot, K == t (eta sum_p wJ B^T Deta grad + geometric block of eta Edot), for arbitrary De, Deta, Edot; all Ne, nPg", timeout=900))
